@@ -101,7 +101,7 @@ def run_cli(argv, stdin_text=None):
 # generators
 
 STRS = ['x', '', 'héllo wörld', 'line\nbreak', 'q"uote', "it's", '日本', 'a.b', ' sp ']
-KEYS = ['a', 'b', 'c', 'key', 'n1', 'ü']
+KEYS = ['a', 'b', 'c', 'key', 'n1', 'ü', 'None', 'True', '1', '1.5', '0x10']
 
 
 def gen_value(rng, depth, toml=False):
